@@ -572,7 +572,7 @@ def run_valid(case):
 # Invalid strings
 
 BAD_INTERVALS = ['1y', '1Year', '1-daily', '3-fortnight', 'yearly', '-1-day', '1.5-day', 'day', '2-', 'two-day', '',
-                 '1-', '3_day', 'every day', '1-day-2', 'week', '2weeks', '1-d', 'biweekly', '+1-day', '3-days!']
+                 '1-', '3_day', 'every day', '1-day-2', 'week', '2weeks', '1-d', 'biweekly', '+1-day', '3-days!', '0-day', '0-week', '00-hour', '0-month']
 BAD_TOKENS = ['9', 'H1', '/1d', 'Feb:1', '+d', '+1', '1+d', '10:5', '10:5am', ':5', ':123', '++1d', '+1.5d', '@noon',
               'Jan-', '-15', '/', 'Mon!', '+1t', '+1h', '+1D', '+1x', '+1Y', '+1W', '9am!', '9 am'.replace(' ', '_'),
               '1/2/3', '9:00:00', '+-1d', '1e3', '9:3pm', 'am9']
